@@ -198,6 +198,68 @@ Definition local_op (o : op) : bool := match o with ORecv _ => false | _ => true
 (* the unguarded decrement: what a `drop` without a matching holder (a double drop) does *)
 Definition unguarded_drop (c : chunk) (s : state) : state := raw_decr c s.
 
+(* ---- the decrement of `Drop for Chunk` split into its two halves --------------------------------------------
+   `Drop for Chunk` is ONE atomic read-modify-write (`fetch_sub(1) == 1 => dealloc`, the step `ODrop`).  A non-atomic
+   implementation (`n = ref_count.load(); if n == 1 { dealloc } else { ref_count.store(n - 1) }`) is two steps of a
+   thread, and steps of other threads can be scheduled between them.  The extended step relation below adds exactly
+   these two half steps to the model, to show (Proofs.v, Properties/C20.v) that the atomicity is load-bearing:
+   adjacent halves are the atomic drop, but one `OClone` of another thread between them (the thread that built the
+   heap carving the next heap out of the cached remainder of the same chunk, `split_at_offset`) breaks
+   count = holders. *)
+
+(* the store half: `raw_decr` with the count loaded earlier in place of the current count *)
+Definition raw_store_decr (c : chunk) (n : nat) (s : state) : state :=
+  let m := pred n in
+  mkS (refs s) (updc (rc s) c m)
+      (match m with 0 => updc (mem s) c None | S _ => mem s end)
+      (nextid s) (once s) (pend s) (priv s) (fro s).
+
+Inductive xop :=
+| XAtomic (o : op)        (* any operation of the model: one atomic step *)
+| XDecLoad (c : chunk)    (* first half of a non-atomic drop: read the count *)
+| XDecStore.              (* second half: give up the reference, write count - 1 / free when the loaded count was 1 *)
+
+(* the model state + the count each thread has loaded and not yet written back *)
+Definition xstate := (state * (tid -> option (chunk * nat)))%type.
+Definition no_loads : tid -> option (chunk * nat) := fun _ => None.
+
+Section XStep.
+  Variable init : cell -> val.
+
+  Definition xstep (t : tid) (xo : xop) (xs : xstate) : option (xstate * list ev) :=
+    let (s, ld) := xs in
+    match xo with
+    | XAtomic o => match step init t o s with Some (s', ob) => Some ((s', ld), ob) | None => None end
+    | XDecLoad c =>
+        match ld t with
+        | Some _ => None
+        | None => if holds s (Heap t) c then Some ((s, updn ld t (Some (c, rc s c))), []) else None
+        end
+    | XDecStore =>
+        match ld t with
+        | None => None
+        | Some (c, n) =>
+            if holds s (Heap t) c
+            then Some ((raw_store_decr c n (release (Heap t) c s), updn ld t None), [])
+            else None
+        end
+    end.
+
+  Fixpoint xrun (tr : list (tid * xop)) (xs : xstate) : option (xstate * list (tid * ev)) :=
+    match tr with
+    | [] => Some (xs, [])
+    | (t, o) :: tr' =>
+        match xstep t o xs with
+        | None => None
+        | Some (xs1, ob) =>
+            match xrun tr' xs1 with
+            | None => None
+            | Some (xs2, obs) => Some (xs2, map (pair t) ob ++ obs)
+            end
+        end
+    end.
+End XStep.
+
 (* references owned by thread t (its heaps and its cache) *)
 Definition owner_is (t : tid) (o : owner) : bool :=
   match o with Heap t' => Nat.eqb t' t | Cache t' => Nat.eqb t' t | Transit => false end.
